@@ -483,7 +483,19 @@ def gibbs_joint(rec, ctx=None):
     A = rs.randn(m, n)
     yobs = rs.randn(m)
     probes = {}
-    if rec.get("model") == "func":
+    if rec.get("model") == "deconv":
+        # the forward operator of the shipped 1-D deconvolution test problem (function-based LinearModel); the reference
+        # side only knows its dense matrix, assembled column by column from a SEPARATELY built test problem
+        def _tp():
+            import cuqi.testproblem
+            return cuqi.testproblem.Deconvolution1D(dim=n, PSF=rec.get("psf", "gauss"), PSF_param=2.0, PSF_size=min(3, n),
+                                                    BC=rec.get("dbc", "periodic")).model
+        ref_model = _tp()
+        A = np.column_stack([np.asarray(ref_model.forward(e_), float) for e_ in np.eye(n)])
+        m = n
+        yobs = rs.randn(m)
+        mk_model = _tp
+    elif rec.get("model") == "func":
         pf = Probe(ctx or core_ctx0(), "forward", lambda x: A @ np.asarray(x, float).reshape(-1))
         pa = Probe(ctx or core_ctx0(), "adjoint", lambda z: A.T @ np.asarray(z, float).reshape(-1))
         probes = {"forward": pf, "adjoint": pa}
@@ -621,6 +633,9 @@ def gen_gibbs_scenario(r, legacy=False):
     steps = {b: r.choice([1, 1, 2, 3]) for b in strat} if not legacy else None
     if steps and r.random() < 0.2:
         steps.pop(sorted(steps)[0])            # a step count may be omitted for a block (defaults to 1)
+    if shape in ("x_s", "x_d_s", "x_d_lmrf", "x_d_a", "x_s_w", "x_d_reg") and r.random() < 0.15:
+        rec.update(model="deconv", m=n, psf=r.choice(["gauss", "moffat", "defocus"]),
+                   dbc=r.choice(["periodic", "zero", "mirror", "reflect", "nearest"]))
     if rec["xprior"] == "gmrf" and shape == "x_s" and strat["x"]["kind"] == "PCN":
         rec["xprior"] = "gauss"
     if shape == "x_d_s" and strat["x"]["kind"] == "NUTS":
